@@ -576,6 +576,24 @@ func run(c *vf.Ctx, si int) {
 			}
 		}
 	}
+	// governance transactions with a nonce gap (validly signed): the executed nonces of an account are 1, 2, 3, ...
+	// for every transaction type
+	for gi, gtx := range []*types.Tx{
+		rig.TxSpec{Type: types.TxType_GOVERNANCE, From: a0, To: []byte(types.AergoSystem), Nonce: stateNonce(a0) + 3, Amount: new(big.Int).Mul(big.NewInt(10000), rig.Aergo), Payload: rig.GovPayload("v1stake"), GasPrice: gp, ChainID: cid()}.Build(),
+		rig.TxSpec{Type: types.TxType_GOVERNANCE, From: a1, To: []byte(types.AergoName), Nonce: stateNonce(a1) + 2, Amount: rig.Aergo, Payload: rig.GovPayload("v1createName", fmt.Sprintf("g%011d", si)), GasPrice: gp, ChainID: cid()}.Build(),
+	} {
+		before, _ := nut.Best()
+		step := fmt.Sprintf("evil-block/governance-nonce-gap/%d", gi)
+		c.Eval(1)
+		out := produceOn(c, w, nut, scen, step, gtx)
+		c.Count("evil_blocks/governance-nonce-gap/"+out, 1)
+		after, _ := nut.Best()
+		if out == "accepted" || !bytes.Equal(after.Hash, before.Hash) {
+			c.Violation("chain-executed-unauthorised-tx/governance-nonce-gap", fmt.Sprintf("%s: a block with a governance transaction whose nonce skips ahead of the sender's next nonce was accepted (best %x -> %x)", scen, before.Hash[:6], after.Hash[:6]), caseDesc{scen, step, nil})
+			return
+		}
+		c.Nontrivial(scen + "|" + step)
+	}
 	if !ledger(c, w, nut, scen, "evil blocks", owners) {
 		return
 	}
